@@ -115,7 +115,8 @@ def reqLine (toks : List String) : String :=
               -- the scripted upload: `nfull` full blocks, then the short block "abc"
               let b := w.opts.blockSize
               let byBytes := max 1 (49152 / (max b 1))
-              let nfull := min (min w.opts.windowSize 300) byBytes
+              let wv := w.opts.windowSize
+              let nfull := if 1000000 < b * wv ∧ b * wv ≤ 1250000 ∧ wv ≤ 2100 then wv else min (min wv 300) byBytes
               let evs : List REv := (List.range nfull).map (fun i => REv.data ((i + 1) % 65536) (genBytes b (i + 1))) ++
                 [REv.data ((nfull + 1) % 65536) abc]
               let run := rRunFrom rc (rInit rc) evs
@@ -205,7 +206,8 @@ def stormLine (toks : List String) : String :=
   | _ => "bad-op"
 
 /-- several clients under a schedule: by `c12_projection` each client's outcome is its solo outcome, so the
-schedule does not enter the answer. Clients: `d:name:b:w`, `u:name:b:w:content`, `i:kind`. -/
+schedule does not enter the answer. Clients: `d:name:b:w`, `u:name:b:w:content`, `i:kind`,
+`x:victim:kind` (a stranger that sends to the endpoint serving client `victim`). -/
 def multiLine (toks : List String) : String :=
   match toks with
   | "multi" :: rootH :: flags :: fsS :: _sched :: clients =>
@@ -243,6 +245,8 @@ def multiLine (toks : List String) : String :=
             | none, some (_, .error c _) => pure (fs, outs ++ [s!"err:{errIndex c}:L"])
             | none, _ => pure (fs, outs ++ ["noreply"])
           | ["i", _] => pure (fs, outs ++ ["E4L"])
+          -- a stranger sending datagrams to another client's transfer endpoint: by `c12_frame` it changes nobody's outcome
+          | ["x", _, _] => pure (fs, outs ++ ["x"])
           | _ => none
         match clients.foldl step (some (fs0, [])) with
         | none => "bad-op"
